@@ -179,6 +179,8 @@ type Pair struct {
 
 type IntSet map[string]int
 type Queue chan int
+type Level int
+type Key string
 
 func (p Pair) Sum() int   { return p.A + p.B }
 func (p *Pair) Bump(d int) { p.A += d }
@@ -566,6 +568,10 @@ func (g *fgen) stmt() {
 	case k < 31:
 		e, _ := g.intExpr(1)
 		g.w("trace(%s)", e)
+		if r.Intn(3) == 0 { // the same effect twice in a row
+			g.w("trace(%s)", e)
+			g.tag("effect-dup")
+		}
 		g.tag("effect")
 	case k < 32: // early return
 		if g.inLoop == 0 || r.Intn(2) == 0 {
